@@ -61,9 +61,18 @@ func main() {
 		}
 	}
 	target := filepath.Join(outDir, "LogSites.lean")
-	if _, err := os.Stat(target); err != nil || cache["logsites"] != h || cache["repo"] != repo {
+	fileSum := func() string {
+		b, err := os.ReadFile(target)
+		if err != nil {
+			return ""
+		}
+		return fmt.Sprintf("%x", sha256.Sum256(b))
+	}
+	// regenerate unless the scanned sources AND the file on disk are what the cache entry was made from
+	// (another run against a scratch tree may have rewritten the shared file in between)
+	if sum := fileSum(); sum == "" || cache["logsites"] != h || cache["repo"] != repo || cache["out"] != sum {
 		write("LogSites.lean", genLogSites())
-		cache["logsites"], cache["repo"] = h, repo
+		cache["logsites"], cache["repo"], cache["out"] = h, repo, fileSum()
 		if *cacheFile != "" {
 			b, _ := json.Marshal(cache)
 			os.WriteFile(*cacheFile, b, 0o644)
